@@ -9,6 +9,7 @@
 // usage: netcache_drv exh    <ns> <nc> <l1mask> <nkeys> <ntrigs> <depth> <dlmode>
 //        netcache_drv rand   <ns> <nc> <l1mask> <l1lim> <nkeys> <ntrigs> <nops> <execs>
 //        netcache_drv script <ns> <nc> <l1mask> <l1lim> <nkeys> <ntrigs>      (ops on stdin)
+//        netcache_drv coin   <ns> <nc> <l1mask> <nkeys> <execs>      (generation coincidences, fresh worlds)
 //        netcache_drv wire   <ns> <cases> <maxval>
 //        netcache_drv thr    <ns> <nc> <l1mask> <nkeys> <ntrigs> <ops> <execs> <srvthreads>
 //
@@ -141,8 +142,11 @@ static std::string outbuf[8];
 static long lastfull[17];   // per key: id of the most recent full value stored (0 = none)
 
 // ---- world ------------------------------------------------------------------------------
-static void build_world(int srvthreads)
+static bool have_salt=false;    // the probe phase ran once for this (NS, NK): placement is a pure function of the key
+static long nstores[8];          // stores issued through clients since the last quiesce(), per owning server
+static void build_world(int srvthreads,bool fresh_again=false)
 {
+	if(fresh_again) { clients.clear(); servers.clear(); }
 	init_names();
 	servers.resize(NS);
 	std::vector<std::string> ips; std::vector<int> ports;
@@ -167,6 +171,7 @@ static void build_world(int srvthreads)
 		if(l1mask&(1u<<c)) clients[c].l1=thread_cache_factory(l1lim);
 		clients[c].cache=tcp_cache_factory(ips,ports,clients[c].l1);
 	}
+	if(fresh_again && have_salt) return;   // brand-new servers and L1s, all counters at 0, nothing probed
 	// probe phase: where does each key live?  (stored through client 0, looked up directly)
 	place.assign(NK+1,-1);
 	std::set<std::string> none;
@@ -187,6 +192,7 @@ static void build_world(int srvthreads)
 		}
 	}
 	init_names();
+	have_salt=true;
 }
 
 static void quiesce()
@@ -195,6 +201,7 @@ static void quiesce()
 	for(int c=0;c<NC;c++) if(clients[c].l1) clients[c].l1->clear();
 	vt::fake_now=vt::clock_base;
 	memset(lastfull,0,sizeof(lastfull));
+	memset(nstores,0,sizeof(nstores));
 	std::set<std::string> none;
 	for(int s=0;s<NS;s++) {
 		uint64_t g=0;
@@ -265,6 +272,7 @@ static void op_store(int c,int k,std::vector<int> const &ts,int dl,int vkind=0)
 {
 	long vc=pick_value(k,vkind);
 	clients[c].cache->store(nm(k),valbytes(vc),trigset(ts),vt::clock_base+dl);
+	nstores[place[k]]++;
 	std::set<int> tset(ts.begin(),ts.end());
 	vt::J j; j.s("e","Op").i("c",c).s("op","store").i("k",k).i("v",vc).a("ts",tset).i("dl",dl);
 	observe(j,c); tr.line(j.str());
@@ -568,6 +576,66 @@ int main(int argc,char **argv)
 				else if(x<92) op_clear(c);
 				else op_tick(1+R(2));
 			}
+		}
+	}
+	else if(mode=="coin") {
+		// Generation coincidences.  Every execution gets brand-new servers and L1 objects (all counters at 0),
+		// some servers pre-aged by direct stores (long-lived next to fresh ones), a small L1 limit (0..3) with key
+		// cycling so that L1 entries are evicted and refilled, clears in between.  Then, for every client with an
+		// L1 and every key, ANOTHER client re-stores the key - after as many filler stores on the owning server
+		// as are needed to make the generation the server is going to hand out EQUAL to the stamp the L1 holds
+		// (possible only if an L1 ever holds a stamp its server has not issued yet) - and every client fetches it.
+		NK=atoi(argv[5]); NT=0; int execs=atoi(argv[6]);
+		// every client object owns a pthread key (booster::thread_specific_ptr) and a process has only 1024 of them
+		if(execs*NC>840) execs=840/NC;
+		tr.open();
+		vt::rng R(seed*7340033u + NS*101 + NC*7 + l1mask*13);
+		std::vector<int> none_ts;
+		for(int e=0;e<execs;e++) {
+			l1lim = NS==1 ? 1+e%3 : e%4;       // 0 = unlimited, 1..3 (one server: only refills let an L1 count ahead)
+			build_world(1,true);
+			for(int s=0;s<NS;s++) {            // long-lived servers next to fresh ones
+				int age = R(4)==0 ? 10+R(30) : R(3);
+				std::set<std::string> none;
+				for(int i=0;i<age;i++) servers[s].backing->store("\x01age","x",none,vt::clock_base+5);
+			}
+			quiesce(); vcounter=0;
+			tr.line(reset_line("coin"));
+			std::vector<int> l1c; for(int c=0;c<NC;c++) if(clients[c].l1) l1c.push_back(c);
+			int rounds=1+R(3);
+			for(int r=0;r<rounds;r++) {
+				int nst=1+R(NK+2);
+				for(int i=0;i<nst;i++) op_store(R(NC),1+R(NK),none_ts,1000,R(6)==0 ? 1 : 0);
+				if(!l1c.empty()) {
+					int a=l1c[R(l1c.size())];
+					int nf=R(l1lim>0 ? 10+6*NK : 14), k0=R(NK);   // with a small L1, cycling refills: the L1's fill count runs ahead of the servers' store counts
+					bool cyc=R(3)!=0;
+					for(int i=0;i<nf;i++) op_fetch(a, cyc ? 1+(k0+i)%NK : 1+R(NK));
+				}
+				unsigned x=R(10);
+				if(x==0) op_clear(R(NC));
+				else if(x==1) op_rise(R(NC),1+R(NK));
+			}
+			for(size_t ci=0;ci<l1c.size();ci++) {
+				int c=l1c[ci];
+				int k0=R(NK);
+				for(int kk=0;kk<NK && kk<3;kk++) {
+					int k=1+(k0+kk)%NK, s=place[k];
+					int d=(c+1+R(NC-1))%NC;            // another client
+					uint64_t sigma=0;
+					bool held=clients[c].l1->fetch(nm(k),0,0,0,&sigma);
+					long long next=servers[s].genbase+nstores[s];
+					int f=-1; for(int j=1;j<=NK;j++) if(j!=k && place[j]==s) { f=j; break; }
+					if(held && (long long)sigma>=next && f>0) {
+						long long fill=(long long)sigma-next + (R(4)==0 ? (long long)R(3)-1 : 0);   // equal; sometimes one behind / ahead
+						if(fill>80) fill=80;
+						for(long long i=0;i<fill;i++) op_store(d,f,none_ts,1000,0);
+					}
+					op_store(d,k,none_ts,1000,0);
+					for(int x=0;x<NC;x++) op_fetch((c+x)%NC,k);
+				}
+			}
+			for(int x=0;x<NC;x++) for(int k=1;k<=NK;k++) op_fetch(x,k);
 		}
 	}
 	else if(mode=="script") {
